@@ -3,6 +3,7 @@ Tie: T (regenerated Gen/PipeN.lean, theorems pipeN_kleisli/pipeN_pure by rfl) + 
 spec correspondence on a staged copy of internal/pipe with call-logging non-commuting functions."""
 import os, shutil
 import vlib
+from checks import C20_prog
 
 P = 1000003
 
@@ -39,7 +40,12 @@ def expect(case):
 
 def run(ctx):
     ctx.cov["rule"] = ("cases = (N, x, affine coefficients a_i,b_i) for N=2..20, seeded; stage i is x -> (a_i*x+b_i) mod 1000003 and logs i; "
-                       "non-trivial = every case (all a_i>=2 pairwise non-commuting with overwhelming probability); distinct by case line")
+                       "non-trivial = every case (all a_i>=2 pairwise non-commuting with overwhelming probability); distinct by case line; "
+                       "`prog` cases (checks/C20_prog.py, direct oracle only - the model's line protocol has one composition per case): several "
+                       "compositions built one after another in one process and each called right after it was built and again after all exist: "
+                       "composed functions as first/middle/last step of further compositions (nest), one composed function shared by 2..4 outer "
+                       "compositions (share), sibling closures of one function literal at the same positions of compositions of one arity (sib), "
+                       "a step re-entering the composed function it is part of (rec), random DAGs of these (mix); expected = plain nesting")
     ctx.assumptions += ["user functions are modelled as Kleisli arrows of an arbitrary monad (covers counting, logging, failure, state)",
                         "Go evaluates f(g(x)) innermost call first (translator emits binds in that order)"]
     ctx.xlate("pipen", "PipeN.lean", ["internal/pipe/pipe.go"])
@@ -62,7 +68,10 @@ def run(ctx):
         import json
         cases = [json.load(open(ctx.replay))["case"]]
     # reentrancy: one composed function called concurrently with different arguments (direct oracle only)
-    pcases = []
+    pcases, pviol = [], []   # failures of the concurrent part are reported after the (deterministic) sequential ones
+    if ctx.replay and cases[0].startswith("prog "):
+        run_prog(ctx, binp, [(cases[0], "replay", {})])
+        return
     if not ctx.replay or cases[0].startswith("par "):
         for n in range(2, 21):
             for _ in range(3 if ctx.thorough() or ctx.broken else 1):
@@ -75,22 +84,83 @@ def run(ctx):
             ctx.hist("concurrent_N", c.split()[1])
             if got != "ok":
                 n = int(c.split()[1])
-                ctx.violations.append(vlib.Violation("impl", "Pipe%s called concurrently from 8 goroutines does not return f_N(...f_1(a)) for every call: %s" % ("" if n == 2 else n, got),
+                pviol.append(vlib.Violation("impl", "Pipe%s called concurrently from 8 goroutines does not return f_N(...f_1(a)) for every call: %s" % ("" if n == 2 else n, got),
                                                      case=c, expected="ok", got=got, key={"N": n, "class": "concurrent"}))
         if len(pimpl) != len(pcases):
             ctx.broken.append({"kind": "correspondence", "detail": "harness produced %d lines for %d concurrent cases: %s" % (len(pimpl), len(pcases), perr[-500:])})
     rc, impl, err = ctx.run_harness(binp, [], cases)
     model = ctx.oracle("C20", cases)
     ctx.diff(cases, impl, model, "KChain.run spec vs real PipeN")
+    sviol = []
     for c, got in zip(cases, impl):
         ctx.count(c)
         ctx.hist("N", c.split()[0])
         want = expect(c)
         if got != want:
             n = int(c.split()[0])
-            ctx.violations.append(vlib.Violation("impl", "Pipe%s does not return f_N(...f_1(a)) with each function applied once in order" % ("" if n == 2 else n),
+            sviol.append(vlib.Violation("impl", "Pipe%s does not return f_N(...f_1(a)) with each function applied once in order" % ("" if n == 2 else n),
                                                  case=c, expected=want, got=got, key={"N": n}))
         elif len(ctx.cov["samples"]) < 4 and c.split()[0] in ("2", "9", "20"):
             ctx.sample({"case": c, "impl": got, "model": want})
     if len(impl) != len(cases):
         ctx.broken.append({"kind": "correspondence", "detail": "harness produced %d lines for %d cases: %s" % (len(impl), len(cases), err[-500:])})
+    # a one-composition case that fails only because of what the process composed BEFORE it is no replay by itself: such
+    # failures are listed after the self-contained `prog` cases (which build their whole history in one line)
+    later = []
+    if sviol and not ctx.replay:
+        rc1, alone, _ = ctx.run_harness(binp, [], [sviol[0].case])
+        if alone and alone[0] == expect(sviol[0].case):
+            for v in sviol:
+                v.what += " (in a process that had built other compositions before; the first such case passes when it is run alone)"
+            later, sviol = sviol, []
+    ctx.violations += sviol
+    if not ctx.replay:
+        per_family = 1200 if ctx.thorough() else 120
+        if ctx.broken:
+            per_family *= 5
+        run_prog(ctx, binp, C20_prog.gen_cases(ctx.rng, per_family))
+    ctx.violations += later + pviol
+
+
+def run_prog(ctx, binp, pc):
+    """several compositions in one process (checks/C20_prog.py): direct oracle only"""
+    lines = [c for c, _, _ in pc]
+    rc, impl, err = ctx.run_harness(binp, [], lines)
+    fails = []
+    for (c, fam, info), got in zip(pc, impl):
+        ctx.count(c)
+        ctx.hist("prog_family", fam)
+        ctx.hist("prog_compositions", len(C20_prog.groups(c)))
+        if fam in ("nest", "share"):
+            ctx.hist("prog_%s_position" % fam, info["where"])
+            ctx.hist("prog_%s_base_arity" % fam, info["base"])
+        if "depth" in info:
+            ctx.hist("prog_reentry_depth", info["depth"])
+        want = C20_prog.prog_expect(c)
+        if got != want:
+            fails.append([c, fam, got, want, ""])
+        elif fam in ("share", "rec") and sum(1 for x in ctx.cov["samples"] if str(x.get("case", "")).startswith("prog")) < 2:
+            ctx.sample({"case": c, "impl": got[:300]}, limit=8)
+    # all lines of a run share one process: a line may fail because of what EARLIER lines composed. The first failing line that
+    # also fails in a process of its own (a replay that needs nothing else) is reported first.
+    # (candidates taken family by family in turn, at most 300 processes)
+    rank, seen = [], {}
+    for f in fails:
+        seen[f[1]] = seen.get(f[1], 0) + 1
+        rank.append((seen[f[1]], len(rank)))
+    for _, k in sorted(rank)[:300]:
+        f = fails[k]
+        if len(pc) == 1:
+            break
+        rc1, alone, _ = ctx.run_harness(binp, [], [f[0]])
+        if alone and alone[0] != f[3]:
+            f[2] = alone[0]
+            fails.insert(0, fails.pop(k))
+            break
+        f[4] = " (in the process that had run the earlier cases; the case passes in a process of its own)"
+    for c, fam, got, want, rem in fails:
+        ctx.violations.append(vlib.Violation("impl", "a function composed by Pipe/PipeN does not return f_N(...f_1(a)) of the functions supplied to it "
+                                             "when several compositions exist in the process (%s): %s%s" % (fam, C20_prog.describe(c, got), rem),
+                                             case=c, expected=want, got=got, key={"class": "prog", "family": fam}))
+    if len(impl) != len(lines):
+        ctx.broken.append({"kind": "correspondence", "detail": "harness produced %d lines for %d prog cases: %s" % (len(impl), len(lines), err[-500:])})
